@@ -1,4 +1,5 @@
-// +build force32bit
+// +build 386 force32bit
+// +build !force64bit
 
 package modm
 
